@@ -69,8 +69,23 @@ func (c *Client) canAct() bool {
 }
 
 func (c *Client) beginFinal() {
+	// liveness is about requests submitted after the faults stopped: a request
+	// still outstanding from the fault phase is abandoned (its outcome stays
+	// unknown; its channel keeps being watched for C12)
+	if c.phase == 1 {
+		if c.op != nil && c.op.write {
+			c.op.failed = "abandoned"
+			c.sim.orc.recordOp(c.op)
+		}
+		c.sim.orc.abandoned = append(c.sim.orc.abandoned, &pendingReq{rs: c.rs, host: c.host, hinc: c.hinc, issued: c.issuedTick, timeout: int64(c.sim.cfg.TimeoutTicks)})
+		c.op, c.phase, c.rs = nil, 0, nil
+	} else if c.phase == 2 {
+		c.rs.Release()
+		c.op, c.phase, c.rs = nil, 0, nil
+	}
 	c.final = true
 	c.finalLeft = 2
+	c.nextAt = 0
 }
 
 func (c *Client) finalDone() bool {
@@ -81,7 +96,7 @@ func (c *Client) pickHost() *Host {
 	s := c.sim
 	var cands []*Host
 	for _, h := range s.hosts {
-		if h.up && !h.stopped {
+		if h.up && !h.stopped && h.started && (h.role != roleWitness || h.initial || s.src.Chance(1, 10)) {
 			cands = append(cands, h)
 		}
 	}
@@ -92,6 +107,9 @@ func (c *Client) pickHost() *Host {
 }
 
 func (c *Client) timeout() time.Duration {
+	if c.final {
+		return 40 * time.Millisecond
+	}
 	return time.Duration(c.sim.cfg.TimeoutTicks) * time.Millisecond
 }
 
@@ -300,3 +318,7 @@ func (c *Client) hostDied(h *Host) {
 	c.op, c.phase, c.rs = nil, 0, nil
 	c.readDone = false
 }
+
+// shardStopped is called when the shard of a host is stopped gracefully: the
+// outstanding requests will be Terminated through their channels.
+func (c *Client) shardStopped(h *Host) {}
